@@ -111,7 +111,8 @@ CLAIMS = {
              "tallies are discharged for all inputs. The walk over a whole "
              "topology object (_collect_attributes_from_topo) is executed on two slice programs built through the real API (bounded): "
              "attributes equal a direct tally, and a fresh collector gives the same result whatever was collected earlier in the "
-             "process. Collection from the serialized model (_collect_attributes_from_asm) is not mechanised.",
+             "process, and the port-mirror exemption follows the slice when the service using the mirrored port is removed. Collection "
+             "from the serialized model (_collect_attributes_from_asm) is not mechanised.",
         technique="contract-based deductive verification: per-call contribution + monotonicity postconditions on the real methods, "
                   "order independence as a two-run lemma harness, z3; replay on real code",
         design_ref="DESIGN.md section 3 C11"),
@@ -120,7 +121,8 @@ CLAIMS = {
              "a reference, duplicate ids and mixed types, single definition per pool, and pools -> per-node delegations -> pools "
              "regrouping are checked on the real functions with symbolic ids, pool names, node ids and detail values.",
         note="Bounded: containers of 1..2 delegations (and two members added in one call), pool families of <= 2 pools over 3 nodes "
-             "plus three pools on disjoint node pairs with interleaving delegation ids. Known finding KF-C12-1 (a node needing "
+             "plus three pools on disjoint node pairs with interleaving delegation ids (also re-indexed after an edit); the same text "
+             "decoded twice with an edit in between. Known finding KF-C12-1 (a node needing "
              "two entries under one delegation id cannot be expressed) is recorded; one defect repaired (all-zero details).",
         technique="contracts on the real codec / regrouping functions checked by bounded symbolic execution (pyvc), z3; replay on real code",
         design_ref="DESIGN.md section 3 C12"),
@@ -143,7 +145,8 @@ CLAIMS = {
     'C07': dict(category='other',
         text="Programs of building calls (add/remove node, component, facility, service, sub-interface; connect/disconnect; "
              "peer/unpeer; set/unset property; rejected calls in between; attempts to create a second element of the same name in every "
-             "scope, in the orders a guard could miss) run on the real API; after EVERY call the statement's rule "
+             "scope, in the orders a guard could miss; ports with two sub-interfaces removed with their owner; interfaces connected one by "
+             "one to an existing service) run on the real API, on both in-memory back ends; after EVERY call the statement's rule "
              "list (id/class/type/name from the pinned vocabularies, distinct ids, one owner per component, one parent per interface, "
              "links join interfaces only, one peer per service port, names unique in scope) is evaluated on the model; the read-only "
              "views are compared with the class listings; ViewOnlyDict offers no mutator; the rules file is pinned.",
@@ -155,17 +158,20 @@ CLAIMS = {
              "after, the deleted set is exactly owned(element) plus the peering artefacts (service-side port and link) and every other "
              "element, property and connection is unchanged; the handle the operation went through lists the same interfaces as a "
              "freshly looked-up handle. Topology shapes: plain, bridged, with a GPU, with connected sub-interfaces on the removed "
-             "card, with a direct port-to-port link to another node (three defects repaired).",
+             "card, with a direct port-to-port link to another node, a connected port that also has a sub-interface, a service with a "
+             "declared site; every scenario on both in-memory back ends (four defects repaired).",
         note=TOPO_NOTE,
         technique="exact-deletion and frame postconditions checked by bounded symbolic execution of the real API (pyvc), z3; replay",
         design_ref="DESIGN.md section 3 C08"),
     'C09': dict(category='other',
-        text="Sixteen rejected calls (duplicate node / component name, unknown component model, interface already connected at the "
+        text="Twenty-two rejected calls (duplicate node / component name, unknown component model, interface already connected at the "
              "first or second position, L2PTP with a shared port at the second position, the same interface listed twice, a None "
              "entry after a good interface, connect of a connected interface, link to an interface of another model or to something "
              "that is not an interface, oversized boot script among good properties, colliding derived ids, facility / switch whose "
-             "port arguments or duplicate port names are rejected after the node exists) each leave the model exactly as before "
-             "(canonical snapshot equality on exceptional exit); five defects repaired.",
+             "port arguments or duplicate port names are rejected after the node exists, a service id that belongs to another service, "
+             "a card whose derived service name exists, a removed service's handle, an unknown parent, a nested id in use in a "
+             "substrate model, a derived link name that is too long) each leave the model exactly as before (canonical snapshot "
+             "equality on exceptional exit); six defects repaired.",
         note=TOPO_NOTE,
         technique="exceptional postconditions (raised => model unchanged) checked by bounded symbolic execution of the real API (pyvc)",
         design_ref="DESIGN.md section 3 C09"),
@@ -175,8 +181,11 @@ CLAIMS = {
              "through the real API and validated by the real Topology.validate(); two-sided obligation against an oracle computed "
              "from the PINNED constraint tables (min/max interfaces, sites spanned, declared-vs-inferred site, forbidden properties, "
              "permitted interface types); a valid single-site service carries the inferred site; L2PTP refuses a shared port at "
-             "connect time. One defect repaired (declared site compared with itself).",
-        note=TOPO_NOTE + "PortMirror / P4 / OVS services and the node-type constraint rows are pinned but not exercised by a scenario; "
+             "connect time. Names are chosen so that derived port names of different nodes coincide; the same topology object is "
+             "validated again after a node moved; a port-mirror service validates for every direction; a declared site survives "
+             "detaching and re-attaching the only interface. One defect repaired (declared site compared with itself).",
+        note=TOPO_NOTE + "P4 / OVS services and the node-type constraint rows are pinned but not exercised by a scenario; PortMirror by one scenario "
+             "per direction; "
              "num_instances is NO_LIMIT for every row, so the per-site instance rule is vacuous in the pinned table.",
         technique="two-sided validation contracts against a pinned-table oracle, checked by bounded symbolic execution of the real API",
         design_ref="DESIGN.md section 3 C10"),
@@ -186,7 +195,9 @@ CLAIMS = {
              "label, both or no delegation) is partitioned by the real generate_adms(): per partition -- delegated resources present "
              "with exactly their own entries, no foreign entry, sub-model of the original, closure of kept interfaces (link, peer, "
              "owning service, owner), stitch nodes everywhere -- and the original is untouched; rewrite_delegations changes only the "
-             "key. One defect repaired (node with a single kind of delegation).",
+             "key and is idempotent. The stitch element and (on the smallest shape) the link may carry delegations themselves. History: "
+             "partition, re-key every partition, partition the same model again -> same partitions, original untouched. One defect "
+             "repaired (node with a single kind of delegation).",
         note=BOUNDED_NOTE + "Model family: <= 11 elements, 1..2 delegation ids; pooled delegations are not in the family.",
         technique="contracts on the real partitioning functions checked by bounded symbolic execution over the bounded graph model",
         design_ref="DESIGN.md section 3 C13"),
@@ -200,7 +211,8 @@ CLAIMS = {
              "the store is untouched. Text level: the same postconditions are evaluated natively on the real networkx / lxml / json "
              "pipeline over generated raw graphs with hostile strings (quotes, markup, non-ASCII, blanks, empty, digit strings) and "
              "ints, the shipped substrate / advertisement models, a generated delegation model and an API-built slice model, "
-             "plus label markup on every node and edge, mixed-GraphID rejection and the library's own validation after import.",
+             "plus label markup on every node and edge, mixed-GraphID rejection, the library's own validation after import, and a "
+             "file saved again over a longer earlier save.",
         note=BOUNDED_NOTE + "The text codecs (networkx GraphML and node-link writers/readers, json, lxml markup, temporary files) are "
              "outside the verifier's reach: in the glue contracts they are an ASSUMED inverse pair (pyvc/iomodel.py) and "
              "GraphML.networkx_to_neo4j an assumed summary; both assumptions are exercised natively on every run (60 generated graphs "
